@@ -37,6 +37,15 @@ ABSTRACTS["AbsDiGraph"] = {
     "in_degree": ([INT], INT, True),
     "out_degree": ([INT], INT, True),
 }
+ABSTRACTS["AbsGraph"] = {
+    "number_of_vertices": ([], INT, False),
+    "number_of_edges": ([], INT, False),
+    "vertices": ([], RANGE, False),
+    "neighbors": ([INT], TList(INT), True),
+    "degree": ([INT], INT, True),
+    "has_edge": ([INT, INT], BOOL, False),
+    "edges": ([], TList(TTuple([INT, INT])), False),
+}
 ABS_ISINSTANCE = {"AbsBipGraph": ("BaseBipartiteGraph",)}
 # driver side: Lean parser (type `P <interface>`) per abstract interface; python encoders are in py2lean_selftest.py
 ABS_PARSERS = {
@@ -44,6 +53,7 @@ ABS_PARSERS = {
     # a bipartite graph literal `l r m u₁ v₁ …` built by the model's own add_edge; a literal the model refuses is a bad request
     "AbsBipGraph": "(do let g ← bipG; match g with | .ok g => pure (Cnfgen.Vars.absBip g) | .error _ => failure)",
     "AbsDiGraph": "(do let g ← diG; match g with | .ok g => pure (Cnfgen.Vars.absDi g) | .error _ => failure)",
+    "AbsGraph": "(do let g ← simpleG; match g with | .ok g => pure (Cnfgen.Vars.absGraph g) | .error _ => failure)",
 }
 DRIVER_IMPORTS = ["CnfgenModel.Vars.GenGlue"]
 # abstract calls of effect objects, as the driver instantiates them for the self-test (the theorems quantify over them)
@@ -105,6 +115,7 @@ IDENTITY_CALLS = ["BipartiteGraph.normalize", "Graph.normalize", "DirectedGraph.
 
 ABS_CONSTRUCTORS = {
     "CompleteBipartiteGraph": ("Cnfgen.Vars.absCompleteBip", [INT, INT], TAbs("AbsBipGraph"), True),
+    "Graph.complete_graph": ("Cnfgen.Vars.absCompleteGraph", [INT], TAbs("AbsGraph"), True),
 }
 
 ITEMS = [
@@ -254,6 +265,14 @@ ITEMS = [
      "params": {"digraph": TAbs("AbsDiGraph"), "formula_class": TEffectClass("Formula")}},
     {"file": "cnfgen/families/ramsey.py", "function": "VanDerWaerden", "property": "C03",
      "params": {"N": INT, "k1": INT, "k2": INT, "ks": TList(INT), "formula_class": TEffectClass("Formula")}, "vararg": "ks"},
+    {"file": "cnfgen/families/ordering.py", "function": "GraphOrderingPrinciple", "property": "C03",
+     "erased_locals": ["description"],
+     "params": {"graph": TAbs("AbsGraph"), "total": BOOL, "smart": BOOL, "plant": BOOL, "knuth": INT,
+                "formula_class": TEffectClass("Formula")}},
+    {"file": "cnfgen/families/ordering.py", "function": "OrderingPrinciple", "property": "C03",
+     "erased_locals": ["description"],
+     "params": {"size": INT, "total": BOOL, "smart": BOOL, "plant": BOOL, "knuth": INT,
+                "formula_class": TEffectClass("Formula")}},
     {"file": "cnfgen/families/ramsey.py", "function": "RamseyNumber", "property": "C03",
      "params": {"s": INT, "k": INT, "N": INT, "formula_class": TEffectClass("Formula")}},
     {"file": "cnfgen/families/counting.py", "function": "CountingPrinciple", "property": "C01",
